@@ -91,13 +91,25 @@ def randomised(cfg):
 # --------------------------------------------------------------------------------------------------
 
 CONTAINERS = ("list", "ndarray", "ndarray_F", "ndarray_slice", "ndarray_T", "ndarray_float", "ndarray_f32", "series_frame",
-              "frame_F", "series_auto")
+              "frame_F", "series_auto", "ndarray_i8", "ndarray_i16", "ndarray_u8")
+NARROW = {"ndarray_i8": np.int8, "ndarray_i16": np.int16, "ndarray_u8": np.uint8}
+
+
+def _narrow(arr, kind):
+    """Integer data delivered in a narrow integer dtype (only when every value is representable in it)."""
+    if arr.dtype.kind in "iu" and arr.size:
+        info = np.iinfo(NARROW[kind])
+        if arr.min() >= info.min and arr.max() <= info.max:
+            return arr.astype(NARROW[kind])
+    return arr
 
 
 def _vec(values, kind, is_reward):
     if kind == "list":
         return list(values)
     arr = np.asarray(values)
+    if kind in NARROW:
+        return _narrow(arr, kind)
     if kind == "ndarray_float" and is_reward and arr.dtype.kind in "iu":
         arr = arr.astype(float)
     if kind in ("series_frame", "frame_F", "series_auto"):
@@ -119,6 +131,8 @@ def _mat(rows, kind):
     arr = np.asarray(rows)
     if arr.ndim != 2:
         return [list(r) for r in rows]
+    if kind in NARROW:
+        return _narrow(arr, kind)
     if kind == "ndarray_float" and arr.dtype.kind in "iu":
         arr = arr.astype(float)
     if kind == "ndarray_F":
